@@ -2,6 +2,7 @@
 //!
 //!   c07 list                   one line per registered built-in: module TAB name TAB kind TAB arity
 //!   c07 pool                   one line per pool value: index TAB scheme expression
+//!   c07 globals                the global names of a fresh engine
 //!   c07 probe                  the probe program and the result every probe run must give
 //!   c07 texts <out>            stdin = jobs, records are appended to the file <out> (stdout/stderr stay free for
 //!                              whatever the evaluated scripts print):
@@ -666,6 +667,15 @@ fn main() {
         "pool" => {
             for (i, p) in POOL.iter().enumerate() {
                 println!("{}\t{}", i, p);
+            }
+            return;
+        }
+        "globals" => {
+            // every global name of a fresh engine (built-ins and prelude): a text that defines one of them changes what
+            // the probe means
+            let engine = new_engine();
+            for g in engine.globals().iter() {
+                println!("{}", g.resolve());
             }
             return;
         }
